@@ -23,6 +23,7 @@ def snake_variant(v):
 
 
 def apply_to_variant(rule, v):
+    v = v[2:] if v.startswith("r#") else v
     if rule in (None, "PascalCase"):
         return v
     if rule == "lowercase":
@@ -50,6 +51,7 @@ def pascal_field(f):
 
 
 def apply_to_field(rule, f):
+    f = f[2:] if f.startswith("r#") else f        # the Rust name of `r#type` is `type`
     if rule in (None, "lowercase", "snake_case"):
         return f
     if rule == "PascalCase":
@@ -345,6 +347,11 @@ def directed(recvs, by_name, k):
     add_enum([{"ident": "Gone", "style": "unit", "skip": True, "word": True}, {"ident": "Here", "style": "unit"},
               {"ident": "Held", "style": "newtype", "fields": [F("0", L("u8"))]}])
     add_enum([{"ident": "Gone", "style": "unit", "skip": True, "word": True}], rule="lowercase")
+    # raw identifiers: the effective name is the Rust name without `r#`
+    add_struct([F("r#type", L("String")), F("r#match", O(L("u8"))), F("plain", O(L("bool")))])
+    add_struct([F("r#type", L("String")), F("r#fn", L("u8"), multiple=True)], rule="SCREAMING_SNAKE_CASE")
+    add_enum([{"ident": "r#type", "style": "unit"}, {"ident": "r#Loop", "style": "newtype", "fields": [F("0", L("u8"))]},
+              {"ident": "Body", "style": "struct", "fields": [F("r#in", L("u8"))]}])
     # unit and newtype receivers that declare their own value-for-absent, and a holder that leaves them out
     def add_special(kind, inner=None):
         nonlocal k
